@@ -21,7 +21,9 @@ RULE = ('Clenshaw derivative tables: coefficient vectors of length 1..12 (dense 
         'm = 1..6 (m = 1 with more than three terms exercises the -2/5 alpha_3 correction); closed forms: orders n = 0..30 for '
         'Hermite He/H, Laguerre (several alpha), Jacobi (several alpha, beta), Legendre, Chebyshev 1-4, sequence forms with gapped '
         'order lists; Zernike: all valid (n, m) with n <= 10, norm on/off, r and t arrays; sag/slope: Qbfs, Qcon (length 1..10) and '
-        '2D-Q with cosine-only / sine-only / mixed / empty / unequal content; points strictly inside the domain; exact runs use '
+        '2D-Q with cosine-only / sine-only / mixed / empty / unequal content, preceded by SYSTEMATIC one-hot content (every position '
+        'of every length, each side, each m); SYSTEMATIC dtype family: every derivative entry point x coordinate dtype (int64 .. int8, '
+        'uint8, uint16, bool, float32) x orders 0, 1, 2, 3, 4, 6; points strictly inside the domain; exact runs use '
         'fractions.Fraction object arrays through prysm\'s own code. A case is non-trivial unless all coefficients vanish; '
         'distinct = distinct (item, input) tuples')
 ASSUMPTIONS = ['the value routines (jacobi, hermite_*, laguerre, Qbfs, Qcon, Q2d, zernike_nm) are polynomials in their argument: the '
@@ -1828,10 +1830,26 @@ MANIFEST_ENTRY = {
              'off_axis_conic_sag/_der/_sigma/_sigma_der (both shift branches, for every interpretation of np.sqrt) and the Q2d_and_der '
              'assembly (up to renaming of locals). The "...Structure = true" conjuncts of the gen_* theorems are Booleans computed by the '
              'translator from the syntax tree (three-valued: a recognised wrong shape is false and fails the proof; an unrecognised '
-             'spelling is reported as untranslatable and printed as TIE-DEGRADED); Lean sees only the Boolean. COMPARED ONLY (executed, no '
-             'theorem about their own recurrences): the nine *_der_seq routines (against one-at-a-time evaluation, orders up to 25 quick / 30 '
-             'thorough), the cheby*_der constant and legendre_der delegation (instances of (2) but not translated), zernike_nm_der_seq, '
-             'compute_z_zprime_Q2d and Q2d_and_der end to end. EXECUTED INPUT FORMS: float64 / float32 / int64 / int32 / 0-d / 2-D / 3-D / '
+             'spelling is reported as untranslatable and printed as TIE-DEGRADED); Lean sees only the Boolean. (8) SEQUENCE FORMS: the '
+             'sweeps of hermite_He_der_seq, hermite_H_der_seq and jacobi_der_seq are in the model as the source runs them (explicit low '
+             'orders, then one loop carrying two polynomials; Jacobi: shifted shape, recurrence_abc of order 1 before and i-1 inside the '
+             'loop) and hermite_der_seq_correct / jacobi_der_seq_correct prove that EVERY row is the derivative of the value routine\'s '
+             'polynomial (all orders, all admissible shapes, by induction on the loop state); cheby_legendre_der_correct: for the shape the '
+             'SOURCE hands to jacobi_der (read from cheby.py / legendre.py, gen_cheby_shapes) and any normalising constant c, c * jacobi_der '
+             'is the derivative of c * P_n. TRANSLATED for these (gen_hermite_der_seq, gen_jacobi_der_seq, gen_delegations): explicit rows, '
+             'locals on entry to the loop, one iteration and the emitted row (symbolic execution of the loop body: statement order does not '
+             'matter), loop start, recurrence_abc indices and shapes; shape / normaliser shape / numerator of cheby1..4(_der)(_seq) and '
+             'legendre(_der)(_seq) (the derivative routine must use those of ITS value routine); order shift, shape, sign and zero rows of '
+             'laguerre_der_seq; the row loop of zernike_nm_der_seq. DTYPE OBLIGATIONS (Booleans from the syntax trees): '
+             'gen_float_coordinates_at_entry (the twelve routines with arithmetic of their own on the coordinates re-bind each coordinate '
+             'to np.asarray(c, dtype=np.result_type(c, 1.0)) before anything else reads it - removed as an identity before the other '
+             'recognisers run) and gen_no_coordinate_typed_fill (no full_like / full / zeros / empty typed like unconverted coordinates). '
+             'COMPARED ONLY (executed): laguerre_seq behind laguerre_der_seq, the row selection (ns[min_i], early returns) of the sequence '
+             'forms (orders up to 25 quick / 30 thorough against one-at-a-time evaluation), '
+             'compute_z_zprime_Q2d and Q2d_and_der end to end. EXECUTED INPUT FORMS: SYSTEMATIC product of every derivative entry point x '
+             'coordinate dtype int64 / int32 / int16 / int8 / uint8 / uint16 / bool / float32 x orders 0, 1, 2, 3, 4, 6 (0..8 thorough); '
+             'one-hot 2D-Q content (every position of every length 1..5, cosine-only and sine-only, m = 1..4; ..7 / ..6 thorough); '
+             'float64 / float32 / int64 / int32 / 0-d / 2-D / 3-D / '
              'strided coordinate arrays (Python and NumPy scalars where the docstring allows them), list / tuple / ndarray (int, f32, f64) '
              'coefficients evaluated twice on the same objects, zeroed and dirty caller alphas buffers, signed m, cm0=None, the boundary '
              'points r=0, u=0, u=1, x=+-1, rho=0; every sequence argument (coefficients s / cs / cns / coefs / cm0 / ams / bms and their inner lists, '
@@ -1843,7 +1861,7 @@ MANIFEST_ENTRY = {
              'propagated, locals are expanded by path-wise symbolic execution or renamed by role, conditional expressions are '
              'treated as if/else; a shape that is still not understood degrades the tie (TIE-DEGRADED), it never turns it red.'),
     'note': ('partial: the Python loops / NumPy plumbing around the translated steps are tied to the model by execution, not by proof; '
-             'the *_der_seq sweeps and cheby*_der are compared, not separately proved or translated; the structural facts are opaque '
+             'the row selection of the *_der_seq sweeps and laguerre_seq are compared only; the structural facts are opaque '
              'Booleans for Lean; exact Fraction / polynomial-object streams are skipped with a note when the implementation does not '
              'accept such objects (only failures on ordinary float inputs count); the surface theorems assume positive radicands '
              '(inside the domain); field semantics x/0 = 0 where Python raises; rounding is outside every theorem (comparisons at 1e-9 '
